@@ -301,15 +301,64 @@ def h_multi_signer(ctx):
     return Outcome(f"multi:{'ok' if not vs else 'bad'}", vs, nontrivial=(combo, supplied, kid_pos, pname))
 
 
+# ------------------------------------------------------------------ keys that declare what they are for
+def h_declared(ctx):
+    """A key restricted (use / key_ops, RFC 7517 4.2 / 4.3) to exactly the operation it is used for is a key 'of the type the
+    algorithm requires': the signing key declares sign, the verifying key verify."""
+    from joserfc.jwk import KeySet
+    alg, kind = ctx.choose("alg/key", scen.JWS_KINDS)
+    path = ctx.choose("path", PATHS)
+    decl = ctx.choose("declares", ["key_ops", "use", "use+key_ops"])
+    via = ctx.choose("declared_via", ["jwk-members", "parameters"])
+    form = ctx.choose("key_form", ["key", "set1"])
+    jwk = scen.key(kind)
+    oct_ = jwk["kty"] == "oct"
+
+    def mk(op, private):
+        d = {}
+        if "use" in decl:
+            d["use"] = "sig"
+        if "key_ops" in decl:
+            d["key_ops"] = [op]
+        src = jwk if (private or oct_) else rjwk.public_of(jwk)
+        if via == "jwk-members":
+            k = A.jkey({**src, **d}, "dict", private=private or oct_)
+        else:
+            k = A.jkey(src, "bytes" if oct_ else "pem", private=private or oct_, params=d)
+        return KeySet([k]) if form == "set1" else k
+    payload = b"hello-World_7"
+    prot = {"alg": alg}
+    if path.startswith("7797"):
+        prot.update({"b64": False, "crit": ["b64"]})
+    p_path = "7797-attached" if path == "7797-compact" else path
+    tag = f"{alg[:2] if alg != 'EdDSA' else alg}* {path}"
+    ctxs = f"{alg}/{kind} key declaring {decl} via {via} as {form}"
+    r = scen.jws_produce(p_path, dict(prot), None, payload, mk("sign", True), [alg])
+    if not r.ok:
+        return Outcome("produce-failed", [viol(f"signing fails with a key that declares exactly this operation: {tag}", f"{ctxs}: {r.exc!r}")], nontrivial=(alg, kind, path, decl, via, form))
+    vs = []
+    c = scen.jws_consume(p_path, r.value, mk("verify", False), [alg])
+    if not c.ok or c.value[0] != payload:
+        vs.append(viol(f"verification fails with a key that declares exactly this operation: {tag}", f"{ctxs}: {c.exc!r}"))
+    try:
+        pub = jwk if oct_ else rjwk.public_of(jwk)
+        p = rjws.verify_compact(r.value, pub)[1] if isinstance(r.value, str) else rjws.verify_json(r.value, pub)[1]
+        if p != payload:
+            vs.append(viol(f"reference verifier recovers another payload: {tag}", ctxs))
+    except (RefError, ValueError) as e:
+        vs.append(viol(f"reference verifier rejects the token: {tag}", f"{ctxs}: {e!r}"))
+    return Outcome(f"declared:{'ok' if not vs else 'bad'}:{alg}", vs, nontrivial=(alg, kind, path, decl, via, form))
+
+
 # ------------------------------------------------------------------ E3: two JWS operations at the same time
 T_OPS = [("HS256", "oct32", 0, "compact"), ("HS256", "oct32", 1, "compact"), ("HS512", "oct64", 0, "flattened"), ("ES256", "P-256", 0, "compact"),
          ("ES256", "P-256", 1, "general"), ("RS256", "rsa", 0, "compact"), ("PS256", "rsa", 0, "compact"), ("EdDSA", "Ed25519", 0, "7797-compact")]
 
 
-def h_threads(ctx):
+def h_threads(ctx, directions=None):
     from .. import conc
     from joserfc import jws, rfc7797
-    direction = ctx.choose("direction", ["sign-and-verify", "sign", "verify"] if config.thorough() else ["sign-and-verify"])
+    direction = ctx.choose("direction", directions or (["sign-and-verify", "sign", "verify"] if config.thorough() else ["sign-and-verify"]))
 
     def payload_of(spec):
         return ("payload-of-%s-%s-%d" % spec[:3]).encode()
@@ -398,6 +447,7 @@ _p2 = Part("ecdsa-leading-zero", h_ecdsa_lz, split_depth=1)
 _p3 = Part("general-multi-signer", h_multi_signer, split_depth=2)
 _p3.single_bucket_ok = True
 PARTS = [
+    Part("keys-declaring-their-operation", h_declared, split_depth=2),
     Part("thread-schedules", h_threads, bound={"quick": 1, "thorough": 2}, split_depth=3, budget={"quick": 200, "thorough": 3000}, engine="E3"),
     Part("roundtrip", h_roundtrip, bound={"quick": 0, "thorough": 0}, split_depth=2, budget={"quick": 120, "thorough": 1500}),
     _p2, _p3,
